@@ -343,19 +343,29 @@ CLAIMED['C19'] = dict(
          'tags are conformant refine the protocol machine; while a thread is inside a reader '
          'section no step of any thread changes the document map (snapshot iteration); with '
          'these, every schedule of every conformant program over the store methods ends with all '
-         'locks released, no internal error and no deadlock, PROVIDED no thread mutates '
-         '_ttl_indexes concurrently (thread_safe_partial, thread_safe_partial_any_n). The full '
-         'statement is refuted in Lean by a schedule (ttl_race_witness) that is a known finding '
-         'replayed on the real code. Tie: random scenarios (2-4 threads, 1-3 store calls each, '
-         'reads, writes, failing reads, iteration with a throwing consumer, TTL expiry, index '
-         'creation) run with real threads on the real CollectionStore/RWLock under a '
-         'deterministic scheduler that switches at lock operations and yielded documents, and on '
-         'the model; outcomes (per-thread results, final maps, errors) are compared and the '
-         'property is judged directly on the real run.',
+         'locks released, no internal error and no deadlock, creation of TTL indexes and index '
+         'drops concurrent with expiry passes included (thread_safe, thread_safe_any_n): the '
+         'TTL index map is changed outside every section, and the discipline — checked on the '
+         'compiled code — is that it is only ever walked through a snapshot taken in one action. '
+         'The discipline the library had before the repair (walk over the live map) is kept as '
+         'data: Lean refutes the property for it by a schedule (unrepaired_ttl_race, '
+         'unrepaired_not_thread_safe) and shows that the theorem rejects it '
+         '(unrepaired_not_disciplined). Tie: random scenarios (2-4 threads, 1-3 store calls each, '
+         'reads, writes, failing reads, iteration with a throwing consumer, TTL expiry, creation '
+         'of plain and TTL indexes, drops of plain and TTL indexes) run with real threads on the '
+         'real CollectionStore/RWLock under a deterministic scheduler that switches at lock '
+         'operations and yielded documents, and on the model; outcomes (per-thread results, final '
+         'maps, errors) are compared and the property is judged directly on the real run. The '
+         'walks over the index map at the Collection level (unique check of a write, index '
+         'listing) are judged on the real code over all single-preemption schedules of six '
+         '(operation, index operation) pairs.',
     note='Granularity is that of the property (lock operations and iteration steps): preemption '
          'inside one primitive action is not exhibited. Kernel certificates cover N = 2, 3; N >= 4 '
          'rests on the any-N hand proof for the reference protocol plus protocol_is_reference. '
-         'Known finding: ttl-index-race (_ttl_indexes iterated and mutated outside any lock).')
+         'A snapshot `list(d.values())` counts as one action (one C call under the GIL; the '
+         'translator checks how the iterator is driven). Conformance of compiled code is a '
+         'decidable hypothesis, proved per store method and recomputed per generated scenario. '
+         'No known finding left (ttl-index-race fixed in the library).')
 
 CLAIMED['C02'] = dict(
     technique='Lean 4 theorems about the model of the update interpreter (mongomock/collection.py '
